@@ -65,15 +65,25 @@ var builtinDecos = []string{
 	decoration.D_UTF8_HEAVY, decoration.D_UTF8_LIGHT, decoration.D_UTF8_LIGHT_CURVED,
 }
 
-// NDecoChoices: the six built-ins plus one custom decoration completed by Populate.
-const NDecoChoices = 7
+// NDecoChoices: the six built-ins, one custom decoration completed by
+// Populate, and one name that is not registered (rendering must then fail).
+const NDecoChoices = 8
+
+// htmlFlagMask: bit0 row-class generator, bit1 caption/id/class, bit3 a
+// TemplateName shared by every wrapper that sets it.
+const htmlFlagMask = 1 | 2 | 8
+
+const unknownDecoName = "no-such-decoration"
 
 func DecoName(i int) string {
 	i = pick(NDecoChoices, i)
 	if i < len(builtinDecos) {
 		return builtinDecos[i]
 	}
-	return "custom"
+	if i == len(builtinDecos) {
+		return "custom"
+	}
+	return unknownDecoName
 }
 
 func customDeco() decoration.Decoration {
@@ -177,6 +187,11 @@ func (w *World) htmlOpts(ht *html.HTMLTable, spec RenderSpec) {
 	} else {
 		ht.Caption, ht.Id, ht.Class = "", "", ""
 	}
+	if spec.Flags&8 != 0 {
+		ht.TemplateName = "shared-name"
+	} else {
+		ht.TemplateName = ""
+	}
 }
 
 func (w *World) autoStyle(spec RenderSpec) string {
@@ -214,6 +229,15 @@ func (w *World) Render(spec RenderSpec, sw io.Writer) (out string, err error, pi
 	w.beginPass()
 	w.rendered = true
 	var t tabular.Table = w.Core
+	if spec.Format%NFormats == FmtText && spec.Via%NVia != ViaPkg && DecoName(spec.Deco) == unknownDecoName {
+		// a text table set to an unknown decoration refuses to render; whether it
+		// runs the render callbacks before refusing is not specified
+		defer func() {
+			if len(w.cbEvents) == 0 {
+				w.passExpected = nil
+			}
+		}()
+	}
 	rr, ok := w.wrapperFor(spec)
 	if ok {
 		if spec.ToWriter {
@@ -267,7 +291,7 @@ func AllRenderSpecs() []RenderSpec {
 					continue
 				}
 				for d := 0; d < NDecoChoices; d++ {
-					if via == ViaAuto && d == NDecoChoices-1 {
+					if via == ViaAuto && DecoName(d) == "custom" {
 						continue
 					}
 					out = append(out, RenderSpec{Format: f, Via: via, Deco: d, Flags: d & 1})
@@ -276,6 +300,7 @@ func AllRenderSpecs() []RenderSpec {
 			}
 			if f == FmtHTML && via == ViaFresh {
 				out = append(out, RenderSpec{Format: f, Via: via, Flags: 3})
+				out = append(out, RenderSpec{Format: f, Via: via, Flags: 8})
 			}
 			out = append(out, RenderSpec{Format: f, Via: via})
 		}
